@@ -369,6 +369,8 @@ def run(rep, tier, seed):
     for fc in lf.replay_known(rep, "C03", known_oracle):
         cases.insert(0, fc)
     lf.add_histories(rng, cases)
+    for c in cases:
+        c.want_nodup = True
     lf.run_cases(cases, model=True, extra_requests=lambda c: ["cover 0 0 1", "glr cert"], parse_model=True)
     cases += directed(rep, cases, rng)
     fcases = forest_cases(cases)
@@ -463,6 +465,23 @@ def check(rep, cases, fcases, proofs_ok, ecases=()):
     ebreaks = (engine_correspondence(rep, cases) + engine_correspondence(rep, fcases, name="glr-engine-forest") +
                engine_correspondence(rep, ecases, name="glr-engine-ws-layout-partial"))
     rep.counters["engine_corr_breaks"] = len(ebreaks)
+    # per-input certificate of `C03_engine_no_duplicates_from_poss_facts`: PossFacts + repetition-free roots + acyclic unfolding
+    # of the MODEL's result graph (which the engine correspondence ties to the real parser's answer, tree by tree)
+    nodup_fail = []
+    for c in cases:
+        for k, a in (getattr(c, "nodup", None) or {}).items():
+            if not a.startswith("nodup "):
+                rep.count("nodup_cert:" + a[:20])
+            elif a == "nodup na":
+                rep.count("nodup_cert:na(no ok result)")
+            elif a == "nodup possfacts=1 roots=1 acyclic=1":
+                rep.count("nodup_cert:pass")
+            elif "acyclic=0" in a:
+                rep.count("nodup_cert:cyclic(outside the theorem)")
+            else:
+                rep.count("nodup_cert:FAIL")
+                nodup_fail.append((c, k, a))
+    rep.counters["nodup_cert_failures"] = len(nodup_fail)
     amb = sum(1 for c in cases for r in c.results if r.startswith("ok ") and int(r.split(" ")[1]) > 1)
     rep.counters["ambiguous_inputs"] = amb
     rep.counters["sentences"] = sum(1 for c in cases for r in c.results if r.startswith("ok "))
@@ -498,6 +517,13 @@ def check(rep, cases, fcases, proofs_ok, ecases=()):
                            "C03_engine_reduction_closure / C03_engine_complete): " + cert_answer(c) + " -- soundness and panic freedom "
                            "of the GLR engine are no longer shown for it; no failing input was found", kind="certificate",
                            n_failures=len(certf)), no_input=True)
+    if nodup_fail and not failures:
+        c, k, a = min(nodup_fail, key=lambda f: (len(f[0].text), len(f[0].inputs[f[1]][2])))
+        rep.violation(dict(c.describe(k), why="the result graph of the engine model fails the per-input certificate of "
+                           "C03_engine_no_duplicates_from_poss_facts (a possibility list with a repeated node, two terminal nodes, or two "
+                           "nodes of one production with prefix-comparable children; or a repeated root): " + a + " -- 'each tree once' is "
+                           "no longer shown for this input; the derivation oracle found no duplicated tree", kind="certificate",
+                           n_failures=len(nodup_fail)), no_input=True)
     if breaks and not failures and not cf:
         c, k, ans = breaks[0]
         rep.violation(dict(c.describe(k), why="correspondence corr:forest broken (Lean Forest.getTree/solutions != real "
@@ -509,8 +535,9 @@ def check(rep, cases, fcases, proofs_ok, ecases=()):
                            "`Glr.parse`, != real GlrParser::parse on the same table, input and match matrix); the derivation "
                            "oracle found no failing input", kind="impl!=model", n_breaks=len(ebreaks)), no_input=True)
     rep.assumptions += ["the GSS engine is modelled (Model/Glr.lean) and tied to the code by correspondence on every input; proved of "
-                        "the model: soundness modulo elision, no panic, see notes/Glr.md; engine completeness and duplicate-freeness "
-                        "are additionally decided by the derivation oracle on the generated cases"]
+                        "the model: soundness modulo elision, no panic, see notes/Glr.md; engine completeness is a theorem under LexDet; "
+                        "duplicate-freeness is a theorem from PossFacts, which the driver evaluates on the model's result graph of every "
+                        "input (`glr nodup`); both are additionally decided by the derivation oracle on the generated cases"]
 
 
 def replay(rep, path):
